@@ -26,6 +26,12 @@ pub fn clone_b(a: &u8) -> u8 { unsafe { MCALLS = MCALLS.wrapping_add(1); } a ^ 0
 pub fn mcalls() -> u8 { unsafe { MCALLS } }
 /// a custom clone method whose PATH ends in `clone` (it is not the trait method)
 pub mod alt { pub fn clone(a: &u8) -> u8 { unsafe { super::MCALLS = super::MCALLS.wrapping_add(1); } a.wrapping_add(7) } }
+/// an impure default expression: a fresh id per evaluation (evaluating it twice is observable)
+pub static mut NEXT_ID: u8 = 0;
+pub fn next_id() -> u8 { unsafe { let v = NEXT_ID; NEXT_ID = NEXT_ID.wrapping_add(1); v } }
+pub fn id_reset() { unsafe { NEXT_ID = 0; } }
+/// a conversion method that takes a marker field
+pub fn into_ph(_a: core::marker::PhantomData<u16>) -> u32 { 1000 }
 /// a conversion method generic over its result: it type-checks for every integer target
 pub fn into_g<T: From<u8>>(a: u8) -> T { T::from(a / 2) }
 pub fn into_a(a: u8) -> u16 { a as u16 + 1000 }
@@ -232,6 +238,8 @@ impl Val for &'static Box<u8> { fn draw<S: Src>(s: &mut S) -> Self { Box::leak(B
 /// wide raw pointers into one static buffer: same address with different lengths, different addresses
 pub static PBUF: [u8; 4] = [1, 2, 3, 4];
 impl Val for *const [u8] { fn draw<S: Src>(s: &mut S) -> Self { let o = (s.u8() & 1) as usize; let n = (s.u8() & 1) as usize + 1; &PBUF[o..o + n] as *const [u8] } }
+impl Val for (u8, core::marker::PhantomData<u16>) { fn draw<S: Src>(s: &mut S) -> Self { (s.u8(), core::marker::PhantomData) } }
+impl Val for &'static [u8] { fn draw<S: Src>(s: &mut S) -> Self { let o = (s.u8() & 1) as usize; let n = (s.u8() & 1) as usize + 1; &crate::src::PBUF[o..o + n] } }
 impl Val for (u8,) { fn draw<S: Src>(s: &mut S) -> Self { (s.u8(),) } }
 impl Val for (u8, u8,) { fn draw<S: Src>(s: &mut S) -> Self { (s.u8(), s.u8()) } }
 impl Val for Box<u8> { fn draw<S: Src>(s: &mut S) -> Self { Box::new(s.u8()) } }
